@@ -263,6 +263,24 @@ def fallback_search(ctx, cases, impl, tag="ref"):
 
 
 # --------------------------------------------------------------------------- streams
+def ensure_model(ctx):
+    """True iff Model/Greedy.vo is built from the CURRENT Gen/Src_Greedy.v.  When the translator or the model fails,
+    `make` leaves the previous .vo files on disk; evaluating cases against them would compare the implementation with
+    a stale translation.  In that case the Coq streams are skipped and the pure-Python fallbacks search for an input."""
+    with core.BuildLock():
+        ok, log = core.make(["Model/Greedy.vo"])
+    if not ok:
+        for f in ("Model/Greedy.vo", "Gen/Src_Greedy.vo"):
+            try:
+                os.remove(os.path.join(core.COQ, f))
+            except OSError:
+                pass
+        if not any(b.get("kind") in ("translator", "proof") for b in ctx.broken):
+            ctx.broken.append({"kind": "model", "name": "Model/Greedy.v", "detail": core.first_coq_error(log)["error"][:400]})
+    ctx.greedy_model_ok = ok
+    return ok
+
+
 def nontrivial(case, r):
     """>= 3 offered tasks and (a tie in the documented key or a task that was not placed)."""
     if r["result"][0] != 0 or len(r["offered"]) < 3:
@@ -274,6 +292,8 @@ def nontrivial(case, r):
 def stream_greedy(ctx, cases, impl, name="S-greedy"):
     """Differential check: real schedule() vs the model, decisions and final virtual availability."""
     ok = True
+    if not getattr(ctx, "greedy_model_ok", True):
+        return False
     try:
         cs = [(g_input(c, r), r["result"], c) for c, r in zip(cases, impl)]
         mism = ctx.model_stream(name, HEADER, "ginput", "g_observe", cs)
@@ -283,8 +303,9 @@ def stream_greedy(ctx, cases, impl, name="S-greedy"):
                            "offered_attrs": impl[idx]["offered_attrs"], "init": impl[idx]["init"],
                            "implementation": impl[idx]["result"], "model": mv, "error": impl[idx].get("error"),
                            "what": "%s.schedule() returns decisions different from the model's" % POL[cases[idx]["policy"]]})
-        cs = [(g_input(c, r), expected_virtual(r), c) for c, r in zip(cases, impl)]
-        mism2 = ctx.model_stream(name + "-virtual", HEADER, "ginput", "g_observe_final", cs)
+        vi = [i for i, r in enumerate(impl) if r["result"][0] != 0 or r["virtual"] is not None]
+        cs = [(g_input(cases[i], impl[i]), expected_virtual(impl[i]), cases[i]) for i in vi]
+        mism2 = [(vi[k], mv) for k, mv in ctx.model_stream(name + "-virtual", HEADER, "ginput", "g_observe_final", cs)]
         for idx, mv in mism2[:3]:
             ctx.violation("%s_virt%d" % (name.replace("-", ""), idx),
                           {"stream": name + "-virtual", "case": cases[idx], "init": impl[idx]["init"],
@@ -305,6 +326,8 @@ def monitor(ctx, name, fn, cases, impl, sel, what):
         ctx.violation("%s_kind%d" % (name, i), {"stream": name, "case": cases[i], "implementation": impl[i]["result"],
                                                 "what": "a decision that is neither a placement nor a cancellation"})
     idxs = [i for i in idxs if i not in bad_kind]
+    if not getattr(ctx, "greedy_model_ok", True):
+        return None
     try:
         bad = ctx.monitor_stream(name, HEADER, "gobs", fn, [g_obs(cases[i], impl[i]) for i in idxs])
     except core.ModelEvalError as e:
@@ -328,6 +351,7 @@ def run(ctx):
     ctx.fingerprint(FILES)
     ctx.translate(["Greedy"])
     ctx.build(ctx.pid, deps=["Model/Greedy.v"])
+    ensure_model(ctx)
     quick = ctx.tier == "quick"
     n = 1600 if quick else 16000
     cases = []
